@@ -14,9 +14,40 @@ ASSUME = [
 ]
 
 
+def _replay_any(prop, prefixes, path):
+    """Replay a replay file: engine-shaped cases are re-recorded and re-judged, call-shaped ones are re-executed;
+    cases of the other stages make the whole check run again with the recorded tier and seed."""
+    import json
+    import os
+    import tempfile
+    data = json.load(open(path))
+    eng = [v for v in data["violations"] if {"P", "cfg", "mode"} <= set(v["case"])]
+    cal = [v for v in data["violations"] if {"alg", "inbox"} <= set(v["case"])]
+    rc = 0
+    if eng:
+        f = tempfile.NamedTemporaryFile("w", suffix=".json", delete=False)
+        json.dump(dict(data, violations=eng), f)
+        f.close()
+        rc |= engine.replay_items(f.name, prefixes, prop)
+        os.unlink(f.name)
+    if cal:
+        import p_calls
+        f = tempfile.NamedTemporaryFile("w", suffix=".json", delete=False)
+        json.dump(dict(data, violations=cal), f)
+        f.close()
+        rc |= p_calls._replay(prop, prefixes, f.name)
+        os.unlink(f.name)
+    if len(eng) + len(cal) < len(data["violations"]):
+        os.environ["VERIF_SEED"] = str(data.get("seed", 1))
+        import main
+        mod, fn = main.CHECKS[prop]
+        rc |= getattr(__import__(mod), fn)(data.get("tier", "quick"), int(data.get("seed", 1)), None)
+    return rc
+
+
 def _run(prop, prefixes, what, tier, seed, replay, extra=None):
     if replay:
-        return engine.replay_items(replay, prefixes, prop)
+        return _replay_any(prop, prefixes, replay)
     rep = Report(prop, tier, "model_checking")
     engine.report_engine(rep, tier, seed, prop, prefixes, what)
     mc.report_mc(rep, prop, tier, seed)
